@@ -4,7 +4,7 @@
 
    events  cinit  {keys}                   new schedule: empty store; keys = the key universe of the schedule
            cwrite {items}                  one committed atomic batch (val [-1] = deletion)
-           cp     {step}                   a persist step (p1 | p2 | p3 | psync) - changes no answer, nothing to update
+           cp     {step}                   a persist step (p1 | p2 | p3 | psync | pfail) - changes no answer, nothing to update
            cr1    {r}                      reader r invoked its range scan (snapshot of the top layer taken)
            cr2    {r, res}                 reader r's scan returned res = [[key, value], ...] as delivered
            cget   {key, res}               a point read executed atomically at this moment                     *)
